@@ -34,7 +34,10 @@ def log(*a):
 # --------------------------------------------------------------------------- build
 def build(engine):
     t0 = time.time()
-    r = subprocess.run(['make', '-C', ROOT, '-j' + os.environ.get('VERIF_MAKE_J', '16'), 'REPO=' + REPO, 'B=' + BUILD, engine], stdout=subprocess.PIPE, stderr=subprocess.STDOUT, text=True)
+    cmd = ['make', '-C', ROOT, '-j' + os.environ.get('VERIF_MAKE_J', '16')]
+    if os.environ.get('VERIF_REPO') or os.environ.get('VERIF_BUILD'):     # scratch-worktree studies only; the registered checks use the Makefile's defaults
+        cmd += ['REPO=' + REPO, 'B=' + BUILD]
+    r = subprocess.run(cmd + [engine], stdout=subprocess.PIPE, stderr=subprocess.STDOUT, text=True)
     if r.returncode != 0:
         log('BUILD FAILED for engine', engine)
         log(r.stdout[-6000:])
